@@ -3,6 +3,7 @@ import LexVerif.Proof.WriteRadixInt
 import LexVerif.Proof.WriteBinaryShape
 import LexVerif.Proof.WriteRadixFrac
 import LexVerif.Proof.WriteRadixIntText
+import LexVerif.Proof.WriteRadixRound
 import Mathlib.Tactic.SplitIfs
 /-!
 # C07 — generic-radix float output
@@ -117,6 +118,7 @@ section RadixFull
 open LexVerif.Model LexVerif.Model.WriteRadix LexVerif.Model.WriteRadixInt
 open LexVerif.Proof.WriteRadixF LexVerif.Proof.WriteRadixWF LexVerif.Proof.WriteRadixTerm
 open LexVerif.Proof.WriteRadixTermInt LexVerif.Proof.WriteRadixFrac LexVerif.Proof.WriteRadixInteger
+open LexVerif.Proof.WriteRadixRound
 open LexVerif.Model.WriteInt (Res)
 
 /-- binary32 or binary64 (radix.rs runs in the float's own type) -/
@@ -135,14 +137,14 @@ theorem genericRadices_bounds : ∀ r ∈ genericRadices, 3 ≤ r ∧ r ≤ 36 :
 
 /-! ### 3a. well-formedness -/
 
-/-- **C07 well-formedness, code as it is in /repo now.** For every finite binary32/binary64 pattern, every generic
-radix, every format with that mantissa radix (any exponent radix ≥ 2), every feature set and every option set with
-default `max_significant_digits`: whatever `radix::write_float` writes is a non-empty run of digits below the radix,
-optionally the decimal point and digits below the radix, optionally the exponent character, an optional sign and
-digits of the exponent radix. No exclusion hypothesis. -/
+/-- **C07 well-formedness, code as it is in /repo now (dbb7ae7, f386e72, 2de23fc).** For every finite
+binary32/binary64 pattern, every generic radix, every format with that mantissa radix (any exponent radix ≥ 2), every
+feature set and EVERY option set (max/min significant digits, rounding mode, breaks, trim, punctuation): whatever
+`radix::write_float` writes is a non-empty run of digits below the radix, optionally the decimal point and digits
+below the radix, optionally the exponent character, an optional sign and digits of the exponent radix. No exclusion. -/
 theorem radix_wellformed {f : Fmt} (hf : StdFmt f) {r : Nat} (hr : r ∈ genericRadices) (feats : Features)
     (fmt : Format) (hfr : fmt.mantissaRadix = r) (her : 2 ≤ fmt.exponentRadix) (o : WOpts)
-    (ho : o.maxDigits = none) {bits : Nat} (hb : bits < f.infBits) (len : Nat) {text : List Nat}
+    {bits : Nat} (hb : bits < f.infBits) (len : Nat) {text : List Nat}
     (hw : WriteRadix.writeFloat true feats f fmt o bits len = .ok text) :
     WellFormed r fmt.exponentRadix o.dp o.exp text := by
   obtain ⟨h3, h36⟩ := genericRadices_bounds r hr
@@ -161,7 +163,7 @@ theorem radix_wellformed {f : Fmt} (hf : StdFmt f) {r : Nat} (hr : r ∈ generic
       · simp only [Res.ok.injEq] at hw
         subst hw
         obtain ⟨hd, hne⟩ := generate_digitBytes hf.fok (by omega) h36 (hf.radix_lt h36) (hf.predOne hr) hb hg
-        have := layoutText_wellFormed (WriteFloat.effFmt feats fmt) feats o ho (by omega : 0 < r)
+        have := layoutText_wellFormed_all (WriteFloat.effFmt feats fmt) feats o (by omega : 2 ≤ r) h36
           (by rw [effFmt_exponentRadix]; exact her) g hd hne hl
         rwa [effFmt_exponentRadix] at this
     | fault => rw [hl] at hw; simp at hw
@@ -174,7 +176,7 @@ generation left in the scratch buffer is a digit of the radix (the integer bytes
 snapshot (`cf = false`) this hypothesis fails exactly on the recorded round-up finding (`snapshot_roundup_invalid_digit`). -/
 theorem radix_wellformed_of_valid_fraction (cf : Bool) {f : Fmt} (hf : StdFmt f) {r : Nat} (hr : r ∈ genericRadices)
     (feats : Features) (fmt : Format) (hfr : fmt.mantissaRadix = r) (her : 2 ≤ fmt.exponentRadix) (o : WOpts)
-    (ho : o.maxDigits = none) {bits : Nat} (len : Nat) {g : Gen} (hg : generate cf f r bits = .ok g)
+    {bits : Nat} (len : Nat) {g : Gen} (hg : generate cf f r bits = .ok g)
     (hfrac : ∀ c ∈ g.fracs, DigitByte r c) {text : List Nat}
     (hw : WriteRadix.writeFloat cf feats f fmt o bits len = .ok text) :
     WellFormed r fmt.exponentRadix o.dp o.exp text := by
@@ -196,7 +198,7 @@ theorem radix_wellformed_of_valid_fraction (cf : Bool) {f : Fmt} (hf : StdFmt f)
         rcases List.mem_append.mp hc with hc | hc
         · exact hints c hc
         · exact hfrac c hc
-      have := layoutText_wellFormed (WriteFloat.effFmt feats fmt) feats o ho (by omega : 0 < r)
+      have := layoutText_wellFormed_all (WriteFloat.effFmt feats fmt) feats o (by omega : 2 ≤ r) h36
         (by rw [effFmt_exponentRadix]; exact her) g hd hne hl
       rwa [effFmt_exponentRadix] at this
   | fault => rw [hl] at hw; simp at hw
@@ -230,23 +232,44 @@ theorem repaired_roundup_example :
     WriteRadix.writeFloat true featsRadix f32 fmt3 {} 0x3f471c71 256 = .ok [48, 46, 50, 49] := by decide +kernel
 
 example : WellFormed 3 3 46 101 [48, 46, 50, 49] :=
-  radix_wellformed (Or.inr rfl) (by decide) featsRadix fmt3 (by decide) (by decide) {} rfl (by decide) 256
+  radix_wellformed (Or.inr rfl) (by decide) featsRadix fmt3 (by decide) (by decide) {} (by decide) 256
     repaired_roundup_example
 
-/-- decided witness for the restriction `max_significant_digits = none` (finding class C14-generic-digit-options):
-binary32 1/9 in radix 3 with `max_significant_digits = 2` is written `"0.01\0"` — a NUL byte -/
-theorem max_digits_emits_nul :
+/-- regression (finding class C14-generic-digit-options, repaired in /repo 2de23fc): binary32 1/9 in radix 3 with
+`max_significant_digits = 2` was written `"0.01\\0"` (a NUL byte read past the digits); now `"0.01"` -/
+theorem max_digits_regression :
     WriteRadix.writeFloat true featsRadix f32 fmt3 { maxDigits := some 2, negBreak := some (-20) } 0x3de38e39 256
-      = .ok [48, 46, 48, 49, 0] := by decide +kernel
+      = .ok [48, 46, 48, 49] := by decide +kernel
 
-/-- NEW finding, decided on the model (and replayed on the implementation, `radix+format`): with
-`required_exponent_notation` the zero (and the smallest subnormal, whose digits are all zero) makes
-`write_float_scientific` index `digits[0]` of an empty slice — PANIC with the documented buffer -/
-theorem finding_zero_required_exponent_panics :
-    WriteRadix.writeFloat true featsRadixFormat f64 fmt36req {} 0 256 = .panic
-    ∧ WriteRadix.writeFloat true featsRadixFormat f64 fmt36req {} 1 256 = .panic
-    ∧ WriteRadix.writeFloat true featsRadixFormat f32 fmt36req {} 0 256 = .panic := by
+/-- regression (repaired in /repo f386e72): with `required_exponent_notation` the zero, the negative zero's magnitude and
+the smallest subnormal (whose digits are all zero) PANICked on `digits[0]` of an empty slice; now `"0.0^0"` -/
+theorem zero_required_exponent_regression :
+    WriteRadix.writeFloat true featsRadixFormat f64 fmt36req { exp := 94 } 0 256 = .ok [48, 46, 48, 94, 48]
+    ∧ WriteRadix.writeFloat true featsRadixFormat f64 fmt36req { exp := 94 } 1 256 = .ok [48, 46, 48, 94, 48]
+    ∧ WriteRadix.writeFloat true featsRadixFormat f32 fmt36req { exp := 94, trim := true } 0 256 = .ok [48, 94, 48] := by
   refine ⟨by decide +kernel, by decide +kernel, by decide +kernel⟩
+
+/-- **the writer never PANICs except for a too short `bytes`** (code as in /repo now): for every finite pattern, every
+generic radix, format, feature set and EVERY option set (`max_significant_digits` a `NonZero`), digit generation and the
+layout — `truncate_and_round`, `round_up`, both notations — return; the call PANICs iff the caller's slice is shorter than
+the highest index `hi` touched. Subsumes the two repaired PANICs (zero under `required_exponent_notation`; radix 17 with
+128 significant digits, corpus/C07.ops) and the slice-order / out-of-window reads of the former `truncate_and_round`. -/
+theorem radix_write_total {f : Fmt} (hf : StdFmt f) {r : Nat} (hr : r ∈ genericRadices) (feats : Features)
+    (fmt : Format) (hfr : fmt.mantissaRadix = r) (o : WOpts) (ho : o.maxDigits ≠ some 0)
+    {bits : Nat} (hb : bits < f.infBits) (len : Nat) :
+    ∃ t : Text, WriteRadix.writeFloat true feats f fmt o bits len = if t.hi > len then .panic else .ok t.text := by
+  obtain ⟨h3, h36⟩ := genericRadices_bounds r hr
+  obtain ⟨g, hg, hlen⟩ := generate_total hf.fok (by omega : 2 ≤ r) (hf.radix_lt h36) true hf.fuel.1 hf.fuel.2.1 h36 hb
+  obtain ⟨hd, hne⟩ := generate_digitBytes hf.fok (by omega) h36 (hf.radix_lt h36) (hf.predOne hr) hb hg
+  have hil : g.ints.length < halfSize := by
+    have : f.bias + 2 < halfSize := by rcases hf with rfl | rfl <;> decide
+    omega
+  obtain ⟨t, ht⟩ := layoutText_total (WriteFloat.effFmt feats fmt) feats o ho (by omega : 2 ≤ r) h36 g hd hne hil
+  refine ⟨t, ?_⟩
+  unfold WriteRadix.writeFloat
+  rw [hfr, hg]
+  simp only [Res.bind]
+  rw [ht]
 
 /-! ### 3b. termination / fuel adequacy -/
 
@@ -258,14 +281,14 @@ theorem radix_fraction_terminates (cf : Bool) {f : Fmt} (hf : StdFmt f) {r : Nat
   genFraction_total cf hf.fok hf.fuel.1 hr hr36 (hf.radix_lt hr36) hb
 
 /-- **the integer loops terminate within the scratch buffer**, for every starting value up to `+∞`: the exponent field
-of `integer` drops by at least one per iteration of either loop, at most `bias + 2` bytes are written. -/
+of `integer` drops by at least one per iteration of either loop, at most `bias + 2` (1025 / 129) bytes are written. -/
 theorem radix_integer_terminates {f : Fmt} (hf : StdFmt f) {r : Nat} (hr : 2 ≤ r) (hr36 : r ≤ 36) {x : Nat}
-    (hx : x ≤ f.infBits) : ∃ ints, genInteger f r x = .ok ints :=
+    (hx : x ≤ f.infBits) : ∃ ints, genInteger f r x = .ok ints ∧ ints.length ≤ f.bias + 2 :=
   genInteger_total hf.fok hr (hf.radix_lt hr36) hf.fuel.2.1 hx
 
 /-- **digit generation never PANICs** (both loops, carry included) -/
 theorem radix_generate_total (cf : Bool) {f : Fmt} (hf : StdFmt f) {r : Nat} (hr : 2 ≤ r) (hr36 : r ≤ 36)
-    {bits : Nat} (hb : bits < f.infBits) : ∃ g, generate cf f r bits = .ok g :=
+    {bits : Nat} (hb : bits < f.infBits) : ∃ g, generate cf f r bits = .ok g ∧ g.ints.length ≤ f.bias + 2 :=
   generate_total hf.fok hr (hf.radix_lt hr36) cf hf.fuel.1 hf.fuel.2.1 hr36 hb
 
 /-! ### 3c. integer exactness — the `IeeeExact` assumption discharged -/
